@@ -207,9 +207,9 @@ def run_scene(desc):
     MOT = motions_for(desc)
     for m in range(len(MOT)):
         G = G_of(MOT[m])
-        Lm = max(L, float(np.linalg.norm(G[:3, 3])))
-        if Lm > 1.3e3 + L:
+        if float(np.linalg.norm(G[:3, 3])) > 1.3e3:
             continue
+        Lm = L      # the tolerance scale is that of the pair; it does not grow with the distance from the origin
         Am, Bm = build_pair(spec, G)
         om, _ = queries(Am, Bm, judged, prim_ok, False)
         n_eval += len(om)
@@ -284,6 +284,20 @@ def run_prim(desc):
             viol.append(v)
     n_eval, nontriv = 0, 0
     tolk = 5e-3 if name == "line_to_circle" else 1e-6
+    tagged = name in ("line_segment_to_circle", "disk_to_disk")
+
+    def kind_of(base, pairs):
+        """For the two functions with a recorded non-global algorithm: the difference is attributed to the recorded defect
+        only if every involved result is a value the recorded procedure yields (mc/symptoms.py)."""
+        if not tagged:
+            return base
+        from . import c10
+        for (P, Q, d, x1, x2) in pairs:
+            vs, _ = c10.evaluate_pair(name, P, Q)
+            # explained = correct (no verdict) or every verdict carries the recognised symptom of the recorded defect
+            if any(not v["sig"].endswith((":clamped_line_solution", ":alternating_projection_iterate")) for v in vs if v["kind"] != "UNDECIDED_cap"):
+                return base
+        return base + ":recorded_nonglobal_procedure"
     for j, B in enumerate(ps.alph(kb)):
         L = ps.scale_L(A, B)
         try:
@@ -299,13 +313,13 @@ def run_prim(desc):
                 d1, q1, q2 = ps.call(name, B, A)
                 n_eval += 1
                 if abs(d1 - d0) > 2 * tolk * L:
-                    add(_viol(name, "swap:scalar_differs", "prim", dict(ctx, original=d0, swapped=d1)))
+                    add(_viol(name, kind_of("swap:scalar_differs", [(A, B, d0, p1, p2), (B, A, d1, q1, q2)]), "prim", dict(ctx, original=d0, swapped=d1)))
             except Exception as e:  # noqa
                 add(_viol(name, "swap:exception:" + type(e).__name__, "prim", dict(ctx, exc=repr(e)[:200])))
         MOT = motions_for(desc)
         for m in range(len(MOT)):
             G = G_of(MOT[m])
-            Lm = max(L, float(np.linalg.norm(G[:3, 3])))
+            Lm = L      # scale of the pair, independent of the position in the world
             try:
                 Am, Bm = transform_prim(A, G), transform_prim(B, G)
                 dm, m1, m2 = ps.call(name, Am, Bm)
@@ -315,20 +329,21 @@ def run_prim(desc):
                 continue
             nontriv += 1 if MOT[m][0] != 0 else 0
             if not np.isfinite(dm) or abs(dm - d0) > 2 * tolk * Lm:
-                add(_viol(name, "motion:scalar_differs", "prim", dict(ctx, motion=MOT[m], original=d0, transformed=dm, tol=2 * tolk * Lm)))
+                add(_viol(name, kind_of("motion:scalar_differs", [(A, B, d0, p1, p2), (Am, Bm, dm, m1, m2)]), "prim",
+                          dict(ctx, motion=MOT[m], original=d0, transformed=dm, tol=2 * tolk * Lm)))
         for k in (0.25, 4.0, 100.0):
             feats = [x for x in (A.min_feature(), B.min_feature()) if x is not None]
             if max(A.size(), B.size()) * k > 1.01e2 or (feats and min(feats) * k < 0.2) or L * k > 1.2e3:
                 continue
             try:
                 Ak, Bk = transform_prim(A, np.eye(4), k), transform_prim(B, np.eye(4), k)
-                dk, _, _ = ps.call(name, Ak, Bk)
+                dk, k1, k2 = ps.call(name, Ak, Bk)
                 n_eval += 1
             except Exception as e:  # noqa
                 add(_viol(name, "scale:exception:" + type(e).__name__, "prim", dict(ctx, scale=k, exc=repr(e)[:200])))
                 continue
             if not np.isfinite(dk) or abs(dk - d0 * k) > 2 * tolk * max(1.0, L * k):
-                add(_viol(name, "scale:scalar_differs", "prim", dict(ctx, scale=k, original=d0, transformed=dk)))
+                add(_viol(name, kind_of("scale:scalar_differs", [(A, B, d0, p1, p2), (Ak, Bk, dk, k1, k2)]), "prim", dict(ctx, scale=k, original=d0, transformed=dk)))
     return {"viol": viol, "n_eval": n_eval, "n_trans": n_eval, "traces": n_eval, "nontrivial_n": nontriv, "hist": {"kind": {"prim": 1}}}
 
 
